@@ -288,6 +288,16 @@ func concHarnesses() []concArg {
 			{{K: "REMOVE", H: "root", N: "big"}}, {{K: "CREATE", H: "root", N: "c"}}, {{K: "CREATE", H: "root", N: "e"}}}},
 		{Name: "stale-dir-handle-reuse", DiskSize: 3000, Setup: []fsx.Op{{K: "MKDIR", H: "root", N: "d"}, {K: "RMDIR", H: "root", N: "d"}, {K: "RESTART"}}, Clients: [][]fsx.Op{
 			{{K: "MKDIR", H: "root", N: "d2"}}, {{K: "CREATE", H: "dead:root/d", N: "x"}, {K: "LOOKUP", H: "root", N: "d2"}}, {{K: "GETATTR", H: "dead:root/d"}, {K: "READDIR", H: "root", Cnt: 1 << 20}}}},
+		{Name: "mkdir-rmdir-renamedir", DiskSize: 3000, Setup: []fsx.Op{{K: "MKDIR", H: "root", N: "d"}, {K: "MKDIR", H: "root", N: "e"}}, Clients: [][]fsx.Op{
+			{{K: "MKDIR", H: "root/d", N: "sub"}}, {{K: "RMDIR", H: "root", N: "d"}}, {{K: "RENAME", H: "root", N: "e", H2: "root", N2: "d"}}}},
+		{Name: "symlink-readlink-remove", DiskSize: 3000, Setup: []fsx.Op{{K: "SYMLINK", H: "root", N: "s", Target: "old-target"}}, Clients: [][]fsx.Op{
+			{{K: "REMOVE", H: "root", N: "s"}, {K: "SYMLINK", H: "root", N: "s", Target: "new", As: "s2"}}, {{K: "READLINK", H: "root/s"}}, {{K: "LOOKUP", H: "root", N: "s", As: "l"}, {K: "READLINK", H: "l"}}}},
+		{Name: "unstable-write-commit-read", DiskSize: 3000, Setup: []fsx.Op{{K: "CREATE", H: "root", N: "f"}}, Clients: [][]fsx.Op{
+			{{K: "WRITE", H: "root/f", Off: 0, Cnt: 5000, Pat: 0x51, Stable: 0}, {K: "COMMIT", H: "root/f"}}, {{K: "WRITE", H: "root/f", Off: 4000, Cnt: 200, Pat: 0x52, Stable: 0}}, {{K: "READ", H: "root/f", Off: 3900, Cnt: 400}, {K: "GETATTR", H: "root/f"}}}},
+		{Name: "readdir-create-create", DiskSize: 3000, Setup: []fsx.Op{{K: "MKDIR", H: "root", N: "d"}, {K: "CREATE", H: "root/d", N: "p"}}, Clients: [][]fsx.Op{
+			{{K: "READDIR", H: "root/d", Cnt: 1 << 20}}, {{K: "CREATE", H: "root/d", N: "x"}, {K: "REMOVE", H: "root/d", N: "p"}}, {{K: "SYMLINK", H: "root/d", N: "y", Target: "t"}}}},
+		{Name: "create-write-lookup-read", DiskSize: 3000, Clients: [][]fsx.Op{
+			{{K: "CREATE", H: "root", N: "n"}, {K: "WRITE", H: "root/n", Off: 0, Cnt: 100, Pat: 0x53, Stable: 2}}, {{K: "LOOKUP", H: "root", N: "n", As: "l"}, {K: "READ", H: "l", Off: 0, Cnt: 100}}}},
 		{Name: "eviction", DiskSize: 3000, ICacheSz: 6, Setup: []fsx.Op{{K: "CREATE", H: "root", N: "a"}, {K: "CREATE", H: "root", N: "b"}, {K: "CREATE", H: "root", N: "c"}, {K: "MKDIR", H: "root", N: "d"}, {K: "CREATE", H: "root/d", N: "e"}, {K: "CREATE", H: "root/d", N: "f"}}, Clients: [][]fsx.Op{
 			{{K: "GETATTR", H: "root/a"}, {K: "WRITE", H: "root/b", Off: 0, Cnt: 10, Pat: 0x41, Stable: 2}}, {{K: "LOOKUP", H: "root/d", N: "e"}, {K: "GETATTR", H: "root/b"}}, {{K: "RENAME", H: "root/d", N: "f", H2: "root", N2: "c"}, {K: "LOOKUP", H: "root", N: "c"}}}},
 	}
